@@ -153,6 +153,10 @@ pub async fn interactive_sandboxed(config: Config) -> Result<()> {
         }
     };
 
+    // The child's `ans`. It is kept here because the child is replaced
+    // by a new one when a query runs out of time or memory.
+    let mut ans = None;
+
     loop {
         let readline = {
             let rl = rl.clone();
@@ -171,10 +175,12 @@ pub async fn interactive_sandboxed(config: Config) -> Result<()> {
                 rl.lock().unwrap().add_history_entry(&line);
                 let config = config.clone();
 
-                let result = sandbox.execute(line).await;
+                let result = sandbox.execute((line, ans.clone())).await;
                 match result {
                     Ok(res) => {
-                        match res.result {
+                        let (reply, new_ans) = res.result;
+                        ans = new_ans;
+                        match reply {
                             Ok(line) => println!("{}", line),
                             Err(line) => println!("{}", line),
                         }
